@@ -226,6 +226,12 @@ class PropertyRun:
         for b in self.bounded:
             for v in b.get('violations', []):
                 self._handle_bounded_violation(b, v, known)
+        # ---- vacuity guard: obligations the property module declares as required must have been generated
+        names = [r['name'] for r in self.records] + [g.name for g in self.grounds]
+        for req in getattr(self, 'required', []):
+            if not any(n.startswith(req) for n in names):
+                self.undecided.append({'obligation': req, 'reason': 'required obligation was not generated on this tree '
+                                       '(the code left the shape the harness expects)'})
         # ---- evidence
         level = self.level
         explanation = self.explanation
